@@ -251,6 +251,9 @@ type Expectation struct {
 	ExitNZ   bool
 	Unsure   string // non-empty: the documentation does not pin this shape; not judged
 	DirDst   bool   // the output argument denotes a directory
+	// UnsureFinal: only the final state of a complete run is not pinned (C19 does not judge
+	// it); the crash disjunction of C20 still applies
+	UnsureFinal string
 }
 
 // resolve follows symlinks inside the tree model; returns the entry that holds the data.
@@ -514,6 +517,11 @@ func (iv *Inv) expect(t *Tree) *Expectation {
 	}
 	if iv.Output == "" && len(files) > 1 {
 		ex.Unsure = "several files selected with stdout destination"
+	}
+	for _, f := range files {
+		if len(filepath.Base(f.path)) > 251 && iv.Output != "" {
+			ex.UnsureFinal = "file name too long for a .bak sibling: " + filepath.Base(f.path)[:16] + "…"
+		}
 	}
 	seenDst := map[string]bool{}
 	for _, f := range files {
